@@ -202,7 +202,7 @@ impl Encoder for TTYEncoder {
             Reset => out.write_all(b"\x1bc")?,
             Char(c) => write!(out, "{}", c)?,
             Scroll(count) => match count.cmp(&0) {
-                Ordering::Less => write!(out, "\x1b[{}T", -count)?,
+                Ordering::Less => write!(out, "\x1b[{}T", count.unsigned_abs())?,
                 Ordering::Greater => write!(out, "\x1b[{}S", count)?,
                 _ => (),
             },
